@@ -54,6 +54,7 @@ struct Cfg {
   NumericType::Type type;
   bool big;                                      // big-endian on disk
   int exam;                                      // exam-info variant
+  int scale = 1;                                 // on-disk scale factor (power of two; integer on-disk types only): value = stored number * scale
 };
 
 static const char* type_name(NumericType::Type t) {
@@ -109,7 +110,7 @@ struct Store {
   shared_ptr<DataSymmetriesForViewSegmentNumbers> symm;
   long n = 0;
   long next = 0;     // value counter
-  long nextval() { ++next; const long v = (next - 1) % type_max(c.type) + 1; if (v > bound) bound = v; return v; }
+  long nextval() { ++next; const long v = ((next - 1) % type_max(c.type) + 1) * c.scale; if (v > bound) bound = v; return v; }
   // --- round 2
   long bound = 0;                       // upper bound of |value| in the store (input-domain control for the arithmetic calls)
   shared_ptr<ProjData> pd2;             // a second writer object on the same file
@@ -136,12 +137,22 @@ static void observe(vh::Json& j, Store& s) {
     j.num("bytes", (long long)file.size() * 4).arr("pre", std::vector<int>()).arr("file", file);
     return;
   }
-  std::ifstream in(s.data_name.c_str(), std::ios::in | std::ios::binary);   // a fresh, second reader
-  std::vector<unsigned char> buf((std::istreambuf_iterator<char>(in)), std::istreambuf_iterator<char>());
+  std::vector<unsigned char> buf;
+  if (s.c.backing == "sstream") {
+    // memory-backed stream: the independent reader is a second view (a copy) of the string buffer's contents
+    const std::string str = static_cast<std::stringstream*>(s.stream.get())->str();
+    buf.assign(str.begin(), str.end());
+  } else {
+    std::ifstream in(s.data_name.c_str(), std::ios::in | std::ios::binary);   // a fresh, second reader
+    buf.assign((std::istreambuf_iterator<char>(in)), std::istreambuf_iterator<char>());
+  }
   const int sz = (int)NumericType(s.c.type).size_in_bytes();
   std::vector<int> pre;
   for (int i = 0; i < s.c.off && i < (int)buf.size(); ++i) pre.push_back(buf[i]);
-  for (size_t p = s.c.off; p + sz <= buf.size(); p += sz) file.push_back(decode_one(&buf[p], s.c.type, s.c.big));
+  // decoded value = stored number * scale factor of the layout
+  for (size_t p = s.c.off; p + sz <= buf.size(); p += sz) {
+    const long long raw = decode_one(&buf[p], s.c.type, s.c.big);
+    file.push_back(raw == -777777 ? raw : raw * s.c.scale); }
   j.num("bytes", (long long)buf.size()).arr("pre", pre).arr("file", file);
 }
 
@@ -235,13 +246,19 @@ static bool make_store(vh::Trace& tr, Store& s, const Cfg& c, const std::string&
   } else if (c.backing == "interfile") {
     if (!c.fresh) write_initial_file(s); else std::remove(s.data_name.c_str());
     const std::ios::openmode mode = c.fresh ? (std::ios::in | std::ios::out | std::ios::trunc) : (std::ios::in | std::ios::out);
-    err = vh::threw([&] { s.pdfs = new ProjDataInterfile(s.exam, s.pdi, s.header_name, mode, c.seq, order_enum(c, tof), NumericType(c.type), bo);
+    err = vh::threw([&] { s.pdfs = new ProjDataInterfile(s.exam, s.pdi, s.header_name, mode, c.seq, order_enum(c, tof), NumericType(c.type), bo, (float)c.scale);
                           s.pd.reset(s.pdfs); }, &msg);
   } else {
-    write_initial_file(s);
+    if (c.backing != "sstream") write_initial_file(s);
     err = vh::threw([&] {
-      s.stream.reset(new std::fstream(s.data_name.c_str(), std::ios::in | std::ios::out | std::ios::binary));
-      s.pdfs = new PDFS(s.exam, s.pdi, s.stream, c.off, c.seq, order_enum(c, tof), NumericType(c.type), bo);
+      if (c.backing == "sstream") {
+        auto pre = sentinel(c.off);
+        std::string init(pre.begin(), pre.end());
+        init += std::string(s.n * NumericType(c.type).size_in_bytes(), '\0');
+        s.stream.reset(new std::stringstream(init, std::ios::in | std::ios::out | std::ios::binary));
+      } else
+        s.stream.reset(new std::fstream(s.data_name.c_str(), std::ios::in | std::ios::out | std::ios::binary));
+      s.pdfs = new PDFS(s.exam, s.pdi, s.stream, c.off, c.seq, order_enum(c, tof), NumericType(c.type), bo, (float)c.scale);
       s.pd.reset(s.pdfs); }, &msg);
     if (!err && c.backing == "hdrstream")
       herr = vh::threw([&] { if (write_basic_interfile_PDFS_header(s.header_name, s.data_name, *s.pdfs) != Succeeded::yes) throw std::string("no"); }, &msg);
@@ -264,7 +281,7 @@ static bool make_store(vh::Trace& tr, Store& s, const Cfg& c, const std::string&
       .num("minView", s.pdi->get_min_view_num()).num("maxView", s.pdi->get_max_view_num())
       .num("minTang", s.pdi->get_min_tangential_pos_num()).num("maxTang", s.pdi->get_max_tangential_pos_num())
       .num("minTof", s.pdi->get_min_tof_pos_num()).num("maxTof", s.pdi->get_max_tof_pos_num()).num("n", s.n)
-      .boolean("timingOrder", timing_order_given(c)).boolean("tofReady", c.tofMash > 0)
+      .num("scale", c.scale).boolean("timingOrder", timing_order_given(c)).boolean("tofReady", c.tofMash > 0)
       .arr("pre0", pre).boolean("err", err).boolean("herr", herr).boolean("rel", (bool)s.symm);
   if (!err) observe(j, s); else j.num("bytes", 0).arr("pre", std::vector<int>()).arr("file", std::vector<int>());
   tr.emit(j);
@@ -623,7 +640,7 @@ static void perform(vh::Trace& tr, Store& s, const Op& op) {
         s.stream2.reset(new std::fstream(s.data_name.c_str(), std::ios::in | std::ios::out | std::ios::binary));
         const bool tof = s.pdi->get_num_tof_poss() > 1;
         s.pdfs2 = new PDFS(s.exam, s.pdi, s.stream2, s.c.off, s.c.seq, order_enum(s.c, tof), NumericType(s.c.type),
-                           s.c.big ? ByteOrder::big_endian : ByteOrder::little_endian);
+                           s.c.big ? ByteOrder::big_endian : ByteOrder::little_endian, (float)s.c.scale);
         s.pd2.reset(s.pdfs2);
       } else {
         shared_ptr<ProjData> r = ProjData::read_from_file(s.header_name, std::ios::in | std::ios::out);
@@ -678,11 +695,14 @@ static Op random_op(vh::Rng& rng, Store& s, bool writes_only) {
     }
     if ((k == ITERSET || k == ITERCOPY) && !s.pdm) continue;
     if (k == REOPEN && s.header_name.empty()) continue;
-    if (k == REOPEN && (s.c.backing == "stream" || s.c.backing == "memory")) continue;
+    if (k == REOPEN && (s.c.backing == "stream" || s.c.backing == "memory" || s.c.backing == "sstream")) continue;
+    // set_bin_value on a scaled store writes the unscaled number (known finding C02-setbin-scale): only where that number fits the type
+    if (k == SETBIN && s.c.scale != 1 && !wide_type(s)) continue;
     if ((k == SETREL || k == GETREL) && !s.symm) continue;
     const bool files_hdr = s.c.backing == "interfile" || s.c.backing == "hdrstream";
     if (k == REATTACH && (!files_hdr || rng.range(0, 3) != 0)) continue;
-    if (k == SECOND && (s.pdm || s.pd2 || rng.range(0, 2) != 0)) continue;
+    if (k == SECOND && (s.pdm || s.pd2 || s.c.backing == "sstream" || rng.range(0, 2) != 0)) continue;
+    if (k == ARITH && s.c.scale != 1) continue;      // (results would have to be multiples of the scale factor)
     if (k == FILLWIDE && (s.c.maxDelta >= s.c.R - 1 || s.c.segReduce)) continue;
     if ((k == FILLNARROW || k == ARITHBAD) && (s.c.maxDelta < 1 || s.c.segReduce)) continue;
     if ((k == ARITHBAD || k == STATS || k == SUBSET || k == ARITH) && s.c.fresh) continue;
@@ -756,6 +776,11 @@ static Cfg random_cfg(vh::Rng& rng, long i) {
   c.type = c.backing == "memory" ? NumericType::FLOAT : (NumericType::Type)all_types()[rng.range(0, 9)];
   c.big = c.backing == "memory" ? false : rng.coin();
   c.exam = rng.range(0, 3);
+  // memory-backed stream (separate get and put positions): pre-sized only (a string buffer cannot be extended by seeking)
+  if (c.backing == "stream" && rng.coin()) { c.backing = "sstream"; c.fresh = false; }
+  // power-of-two scale factor on integer on-disk types
+  c.scale = 1;
+  if (c.backing != "memory" && c.type != NumericType::FLOAT && c.type != NumericType::DOUBLE && rng.range(0, 2) == 0) c.scale = rng.coin() ? 2 : 4;
   return c;
 }
 
